@@ -93,6 +93,32 @@ def rule_R1(ctx):
             ctx.check(polarity in ("keep-when-not-grease", "is-grease"), "R1", "filter:%s" % owner, "membership in TLS_GREASE_VALUES, %s" % polarity,
                       "GREASE filter in %s has the wrong polarity (%s): GREASE values are kept / real values dropped" % (owner, polarity), ctx.loc(b, blk))
     ctx.floor("R1", "GREASE membership tests", n, 3)
+    # is_grease_value(v) is exactly membership of v in the table (no mask / range shortcut)
+    ig = P.body(TLS + "is_grease_value")
+    SI = T.Slicer(ig, P)
+    okm = True
+    why = ""
+    rs = TB.return_sites(ig, P)
+    for (blk, j, term, _) in rs:
+        tt = T.strip(term)
+        if not (tt[0] == "call" and tt[1].endswith("::contains")):
+            okm, why = False, "returns %s" % T.pp(tt)[:80]
+            continue
+        def _tbl(x):
+            if x[0] != "const":
+                return False
+            if (x[2] or "").endswith("TLS_GREASE_VALUES"):
+                return True
+            v = x[1]
+            if isinstance(v, tuple) and v and v[0] == "raw":
+                v = v[1]
+            return isinstance(v, (bytes, bytearray)) and raw is not None and bytes(v) == bytes(raw)
+        table_ok = any(_tbl(x) for x in T.walk(tt[2][0]))
+        arg_ok = any(x[0] == "param" and x[1] == 0 for x in T.walk(tt[2][1]))
+        if not (table_ok and arg_ok):
+            okm, why = False, "contains(%s, %s)" % (T.pp(tt[2][0])[:40], T.pp(tt[2][1])[:40])
+    ctx.check(okm and len(rs) >= 1, "R1", "is_grease_value:membership", "is_grease_value(v) = TLS_GREASE_VALUES.contains(&v)",
+              "is_grease_value is not plain membership in the 16-entry GREASE table (%s): values that merely resemble GREASE are dropped from JA4_b / JA4_c, or GREASE is kept" % why, ctx.loc(ig))
     # filter_grease_values keeps !is_grease_value
     fg = P.body(TLS + "filter_grease_values")
     okf = False
@@ -147,17 +173,36 @@ def rule_R2_R3_R4(ctx):
                   "an unrecognised legacy version code is reported as %s instead of Unknown (`00`): a ClientHello with e.g. version 0x0305 or 0x7f12 gets a "
                   "JA4 starting t12.." % sorted(other), ctx.loc(b, t["otherwise"]))
     # R4 supported_versions
+    n_sv = n_legacy = 0
     for (blk, j, term, conds) in TB.return_sites(b, P):
         dom = Q.canon_conds(P, T.dom_conds(b, S, blk))
-        sv = [c for c in dom if c[0] == "bool" and c[1][0] == "call" and c[1][1].endswith("::contains") and c[2] is True
-              and any(x[0] == "const" and x[1] == 43 for x in T.walk(c[1]))]
+        svc = [c for c in dom if c[0] == "bool" and c[1][0] == "call" and c[1][1].endswith("::contains")
+               and any(x[0] == "const" and x[1] == 43 for x in T.walk(c[1]))]
+        sv = [c for c in svc if c[2] is True]
         if not sv:
+            # a version taken from the legacy field: only when the extension is absent
+            uses_legacy = any(x[0] == "param" and x[1] == 0 for c in dom if c not in svc for x in T.walk(c[1])) or any(x[0] == "param" and x[1] == 0 for x in T.walk(term))
+            if uses_legacy:
+                n_legacy += 1
+                ctx.check(any(c[2] is False for c in svc), "R4", "legacy-version:only-without-extension@%d" % n_legacy,
+                          "legacy version consulted only when supported_versions is absent",
+                          "the legacy version decides the result without first ruling out a supported_versions extension", ctx.loc(b, blk))
             continue
+        n_sv += 1
+        others = [c for c in dom if c not in svc and any(x[0] == "param" and x[1] == 0 for x in T.walk(c[1]))]
+        ctx.check(not others, "R4", "supported_versions:priority",
+                  "the supported_versions branch does not look at the legacy version",
+                  "the supported_versions extension is honoured only for some legacy_version values (%s): a ClientHello that carries the extension with another "
+                  "legacy version is fingerprinted by its legacy field" % "; ".join(T.pp(c[1])[:60] for c in others), ctx.loc(b, blk))
         depends = any(x[0] in ("param", "call") and x is not term for x in T.walk(term)) and not (term[0] == "agg" and not term[4])
         ctx.check(depends, "R4", "supported_versions:contents",
                   "version derived from the supported_versions list",
                   "when the supported_versions extension is present the version is the constant %s regardless of the versions listed: a client offering only "
                   "TLS 1.2 (or GREASE + 1.2) in supported_versions is fingerprinted as t13" % T.pp(term), ctx.loc(b, blk))
+
+
+    ctx.floor("R4", "return sites under `extensions.contains(supported_versions)`", n_sv, 1)
+    ctx.floor("R4", "return sites that use the legacy version", n_legacy, 1)
 
 
 def _first_version(b, blk, limit=6):
@@ -253,14 +298,20 @@ def rule_R5_R6_R7(ctx):
         argname = "ja4_b" if T.has_call(a[0], "::join") and not T.has_call(a[0], "format") and "phi" not in str(a[0])[:10] else "ja4_c"
         argname = ["ja4_b", "ja4_c"][k] if len(hs) == 2 else argname
         guarded = None
+        subject = None
         for c in Q.canon_conds(P, T.dom_conds(gen, S, blk)):
             if c[0] == "bool" and c[1][0] == "call" and c[1][1].endswith("::is_empty"):
-                guarded = (c[2] is False)
+                # the emptiness test must look at the very string that would be hashed
+                same = T.pp(T.canon_value(T.strip(c[1][2][0]))) == T.pp(T.canon_value(T.strip(a[0])))
+                guarded = (c[2] is False) and same
+                if not same:
+                    subject = T.pp(T.canon_value(T.strip(c[1][2][0])))[:80]
         zero = any(x[0] == "const" and x[1] == "000000000000" for blk2, j2, s2 in gen.iter_stmts() if s2["k"] == "assign"
                    for x in T.walk(S.rvalue(s2["r"], blk2, j2)))
         ctx.check(bool(guarded) and zero, "R6", "hash12:%s:empty" % argname,
                   "hash12 used only for a non-empty list, `000000000000` otherwise",
-                  "%s is hashed even when the list is empty: the specification assigns `000000000000`, the code emits sha256(\"\")[..12] = e3b0c44298fc" % argname,
+                  ("%s is hashed even when the list is empty: the specification assigns `000000000000`, the code emits sha256(\"\")[..12] = e3b0c44298fc" % argname)
+                  + ((" (the emptiness test looks at %s, not at the string that is hashed)" % subject) if subject else ""),
                   ctx.loc(gen, blk))
     # R7 hash12
     hb = P.body(TLS + "hash12")
